@@ -98,6 +98,8 @@ def show(t, depth=0):
 
 
 def mk_bin(op, l, r):
+    if op == "Ne":                      # one spelling for (in)equality: a != b is !(a == b)
+        return ("un", "Not", mk_bin("Eq", l, r))
     if op in SWAP:
         op, l, r = SWAP[op], r, l
     if op in COMMUT and repr(r) < repr(l):
@@ -850,8 +852,8 @@ def elementwise_sequence(E, val):
             if S is None:
                 return None
             live = [p for p in S["paths"] if p.exit is None]
-            if len(live) != 1 or len(live) != len(S["paths"]) or live[0].eff:
-                return None
+            if len(live) != 1 or len(live) != len(S["paths"]) or any(e[0] != "loop" for e in live[0].eff):
+                return None       # (nested effect-free closures / loops are fine: they only compute the element)
             return m[0], live[0].val, ("elem", m[0], "cl%s" % m[1][1])
         return None
     if isinstance(val, tuple) and len(val) == 4 and val[0] == "loopout":
